@@ -147,6 +147,27 @@ func c04Check(in c04Input) (key, what string) {
 			return "c04-once", fmt.Sprintf("comment %s on %T.%s occurs %d times in the output", m.text, m.node, m.point, cnt[m.text])
 		}
 	}
+	// (a') the comments of one point come out in the order of the point's list
+	{
+		at := map[string]int{}
+		for i, cm := range comments {
+			at[strings.TrimRight(cm.Lit, "\r\n")] = i
+		}
+		type np struct {
+			n dst.Node
+			p string
+		}
+		lastAt := map[np]int{}
+		lastText := map[np]string{}
+		for _, m := range marks {
+			k := np{m.node, m.point}
+			if prev, ok := lastAt[k]; ok && at[m.text] < prev {
+				return "c04-order-in-point", fmt.Sprintf("point %s of %T holds %s before %s, the print has them the other way round", m.point, m.node, lastText[k], m.text)
+			}
+			lastAt[k] = at[m.text]
+			lastText[k] = m.text
+		}
+	}
 	// (b)
 	// (go/format sorts the specs of an import group; a "\n" decoration can split a group, so the
 	// decorated print may order import specs differently -- printer behaviour, assumption P)
